@@ -209,6 +209,8 @@ def check(prop, tier, seed):
         if i % 4 == 2:      # a quarter of the servers admit one request per connection at a time (concurrency_limit_per_connection)
             st['limit'] = 1
     stims += permits
+    # the address entry point (serve_with_shutdown(addr, ..) on a loopback TCP port, real time): one streaming call in flight at the signal
+    stims += [{'class': 'address_entry_point', 'calls': [{'k': 1, 'c': 1, 'items': 1}], 'steps': [], 'shim': {'rq': 65536, 'wq': 65536, 'pend': 0}, 'addr_entry': True}] * 2
     # a run of transient accept errors in which the signal fires; a connection becomes acceptable only after the run
     stims += [{'class': 'signal_inside_an_accept_error_run', 'calls': [], 'steps': [], 'shim': {'rq': 65536, 'wq': 65536, 'pend': 0},
                'storm': {'errors': e, 'fire_at': f}} for e, f in ((400, 1), (400, 3), (1000, 200), (300, 50))]
